@@ -69,6 +69,8 @@ type UpstreamBehaviour struct {
 	Multi   [][2]string       `json:"multi,omitempty"`   // header lines added with Add (duplicates, case variants)
 	Delay   time.Duration     `json:"delay,omitempty"`   // sleep before answering (virtual)
 	Body    string            `json:"body,omitempty"`
+	// EarlyHints: answer "103 Early Hints" (carrying Headers) before the final response.
+	EarlyHints bool `json:"early_hints,omitempty"`
 }
 
 // Upstreams is the set of model backends sharing one arrival log.
@@ -149,6 +151,10 @@ func (u *Upstreams) Handler(backend string) http.Handler {
 			}
 			if b.Status != 0 {
 				status = b.Status
+			}
+			if b.EarlyHints {
+				rw.Header().Set("Link", "</style.css>; rel=preload; as=style")
+				rw.WriteHeader(http.StatusEarlyHints)
 			}
 		}
 		rw.Header().Set("Content-Type", "text/plain")
